@@ -33,6 +33,21 @@ theorem rentId_eq : Generated.rentSysvarId = refRentId := by decide
 theorem optIs_getD {o : Option Key} {k : Key} (h : optIs o k) : o.getD k = k := by
   rcases h with h | h <;> simp [h]
 
+/-! ## CPI build -/
+
+theorem infosOf_keys (rt : AName → Nat → Bool × Bool) (n : AName) (s w : Bool) (ks : List Key) (i : Nat) :
+    (infosOf rt n ks i).map (fun x => (⟨x.key, s, w⟩ : Meta)) = ks.map (fun k => ⟨k, s, w⟩) := by
+  induction ks generalizing i with
+  | nil => rfl
+  | cons k ks ih => simp [infosOf, ih]
+
+/-- One slot: the CPI meta writer on the CPI value of a client input = the client meta writer on that input,
+whatever the runtime flags. -/
+theorem cpiMetasOf_eq (rt : AName → Nat → Bool × Bool) (ty : AcctTy) (n : AName) (v : Option AVal) :
+    cpiMetasOf ty (toCpiVal rt ty n v) = metasOf ty v := by
+  cases ty <;> rcases v with _ | v <;> try rfl
+  all_goals cases v <;> simp [toCpiVal, cpiMetasOf, metasOf, infosOf_keys]
+
 /-! ## Pack: inversion of the reference unpackers, `PodOption` vs `COption` -/
 
 theorem refUnpackMint_ok {b : List Nat} {m : Mint} (h : refUnpackMint b = .ok m) :
